@@ -68,7 +68,7 @@ void h_polygon_wrapper(void) { struct vec_Point2 l; struct Point2 p; HAVOC(g_ans
 #ifdef UNIT_angle_across_zero
 /* cyclic interpolation of the plume's rotation angle between two cross sections: the short way round, i.e. when the
  * two angles are more than pi apart the smaller one is taken one turn further; result wrapped into [0, 2 pi) */
-#define FAR (fabs(FPXA(angle_2 - angle_1)) > G_Consts_PI)
+#define FAR (__CPROVER_fabs(FPXA(angle_2 - angle_1)) > G_Consts_PI)
 #define T1 ((FAR && angle_2 > angle_1) ? FPXA(angle_1 + 2.0 * G_Consts_PI) : angle_1)
 #define T2 ((FAR && !(angle_2 > angle_1)) ? FPXA(angle_2 + 2.0 * G_Consts_PI) : angle_2)
 #define ROT FPXA((1 - fraction) * T1 + fraction * T2)
